@@ -17,6 +17,15 @@ func main() {
 		os.Exit(2)
 	}
 	prop := os.Args[1]
+	if prop == "c15worker" {
+		var seed int64
+		var batch, per, only int
+		fmt.Sscan(os.Args[2], &seed)
+		fmt.Sscan(os.Args[3], &batch)
+		fmt.Sscan(os.Args[4], &per)
+		fmt.Sscan(os.Args[6], &only)
+		os.Exit(netx.C15Worker(seed, batch, per, os.Args[5], only))
+	}
 	if prop == "dump" {
 		hdr.DumpReplay(os.Args[2])
 		return
@@ -24,11 +33,15 @@ func main() {
 	fs := flag.NewFlagSet("vcheck", flag.ExitOnError)
 	tier := fs.String("tier", "quick", "quick|thorough")
 	replay := fs.String("replay", "", "replay a witness file")
+	phase := fs.String("phase", "", "second phase of a two-phase check (race)")
 	fs.Parse(os.Args[2:])
 	seed := common.EnvSeed()
 
 	if *replay != "" {
 		os.Exit(doReplay(prop, *replay))
+	}
+	if *phase == "race" {
+		os.Exit(dispatchRace(prop, *tier, seed))
 	}
 	os.Exit(dispatch(prop, *tier, seed))
 }
@@ -42,12 +55,25 @@ func dispatch(prop, tier string, seed int64) int {
 		return pow.RunC02(tier, seed)
 	case "C14":
 		return netx.RunC14(tier, seed)
+	case "C15":
+		return netx.RunC15(tier, seed, os.Getenv("VERIF_RACE_PASS") != "")
 	case "C13":
 		return netx.RunC13(tier, seed)
 	case "C03":
 		return pow.RunC03(tier, seed, netx.C03Peer)
 	}
 	fmt.Printf("no check for %s\n", prop)
+	return 2
+}
+
+func dispatchRace(prop, tier string, seed int64) int {
+	switch prop {
+	case "C01":
+		return hdr.RunC01Concurrent(tier, seed)
+	case "C15":
+		return netx.RunC15(tier, seed, true)
+	}
+	fmt.Printf("no race phase for %s\n", prop)
 	return 2
 }
 
